@@ -21,6 +21,19 @@ def na(pid, reason):
 
 exec(open(os.path.join(HERE, "tools", "claims.py")).read())
 
+# properties whose statement implies another property run that property's rules inside their own check (rule prefix `<ID>/`, evidence
+# coverage.composed); DESIGN.md 10.9, 10.12
+COMPOSED = {
+    "C01": "C09 restricted to the two-index symmetric and asymmetric assembly (the property is stated for Cartesian, spherical, mixed and transformed bases)",
+    "C02": "C09 restricted to the two-index symmetric assembly", "C03": "C09 restricted to the two-index symmetric assembly",
+    "C04": "C09 restricted to the four-index assembly", "C05": "C09 restricted to the one-index assembly",
+    "C07": "C09 restricted to the two-index symmetric assembly", "C08": "C09 restricted to the two-index symmetric assembly",
+    "C09": "the transform-forwarding (FWD) rules of C06, C14 and C15 (`every quantity`)",
+}
+for _pid, _what in COMPOSED.items():
+    if _pid in CLAIMED:
+        CLAIMED[_pid]["text"] += " Composed into this check: " + _what + "."
+
 BASELINE = ("cd /repo && /venv/bin/python -m pytest -ra -q -p no:cacheprovider --timeout=900 "
             "--continue-on-collection-errors")
 
